@@ -21,7 +21,8 @@ deriving DecidableEq, Repr
 
 /-- one record of a JSON table + the face certificate the implementation built for it in the
     run that generated the file (`family.get_shape(name).faces`).  `source`/`ref` are the
-    `"source"` and `"name"` fields of a DOI-repository record (`""` when absent/null). -/
+    `"source"` and `"name"` fields of a DOI-repository record (`""` when absent/null; `ref` is
+    recorded whether or not the record has a `source`). -/
 structure Entry where
   name : String
   type : String
@@ -100,6 +101,43 @@ def Family.iter (f : Family V) : List (String × Except String (Shape V)) :=
 def familyOf (t : List Entry) : Family (List P3) :=
   ⟨t.map fun e => (e.name, { type := some e.type, verts := e.verts })⟩
 
+/-! ### several families in one process (histories)
+
+`get_shape` and `__iter__` read `self.data` / `self.names` only and assign nothing: neither an
+instance attribute nor a class attribute of `TabulatedGSDShapeFamily` is written after `__init__`
+(there is no cache — not per instance and not on the class), and `from_gsd_type_shapes` builds a new
+object on every call.  A step therefore returns the world it was given. -/
+
+/-- every tabulated family that exists in the process: the module-level singletons
+    (`PlatonicFamily` …, the repository family) and any `TabulatedGSDShapeFamily(data)` a user makes -/
+structure World (V : Type) where
+  fams : List (Family V)
+
+/-- what a user can ask of family number `fam` -/
+inductive Step where
+  | get (fam : Nat) (name : String)
+  | iter (fam : Nat)
+deriving Repr
+
+/-- one step: the answers it produces (one for `get`, one per name for `iter`) and the world after -/
+def World.step (w : World V) : Step → World V × List (Except String (Shape V))
+  | .get i name =>
+    (w, match w.fams[i]? with
+        | some f => [f.getShape name]
+        | none => [])
+  | .iter i =>
+    (w, match w.fams[i]? with
+        | some f => f.iter.map Prod.snd
+        | none => [])
+
+/-- a history of steps, threaded through the world -/
+def World.run (w : World V) : List Step → World V × List (List (Except String (Shape V)))
+  | [] => (w, [])
+  | s :: rest =>
+    let r := w.step s
+    let rr := r.1.run rest
+    (rr.1, r.2 :: rr.2)
+
 /-! ### `_KeyedDefaultDict` + `_doi_shape_collection_factory` -/
 
 /-- what the factory appends per DOI: tabulated families read from files, then family classes -/
@@ -136,5 +174,14 @@ def keyedGet (m : DoiMaps) (store : List (String × List RepoItem)) (key : Strin
     match factory m key with
     | .error e => (.error e, store)
     | .ok v => (.ok v, store ++ [(key, v)])
+
+/-- a sequence of lookups through ONE `_KeyedDefaultDict` (the store is threaded) -/
+def keyedRun (m : DoiMaps) (store : List (String × List RepoItem)) :
+    List String → List (Except String (List RepoItem)) × List (String × List RepoItem)
+  | [] => ([], store)
+  | k :: rest =>
+    let r := keyedGet m store k
+    let rr := keyedRun m r.2 rest
+    (r.1 :: rr.1, rr.2)
 
 end Tab
